@@ -221,7 +221,7 @@ fn load(ctx: &mut Ctx, call: &Value) -> Value {
             ctx.bi = Some(bi);
             out::ok(v)
         }
-        Err(e) => out::err(&format!("{e:?}")),
+        Err(e) => out::err_of(&e),
     }
 }
 
@@ -605,8 +605,13 @@ fn string(ctx: &Ctx, bi: Bi, kind: &str) -> Value {
     };
     match r {
         Ok(s) => out::ok(json!({"at": ctx.off(s.as_ptr()), "len": out::num(s.len())})),
-        Err(multiboot2::StringError::MissingNul(_)) => out::err("MissingNul"),
-        Err(multiboot2::StringError::Utf8(_)) => out::err("Utf8"),
+        Err(e) => {
+            std::hint::black_box(format!("{e} {e:?}"));
+            match e {
+                multiboot2::StringError::MissingNul(_) => out::err("MissingNul"),
+                multiboot2::StringError::Utf8(_) => out::err("Utf8"),
+            }
+        }
     }
 }
 
